@@ -649,6 +649,7 @@ func (f *FrameV1) ReturnToPool() {
 	f.appendixIndex = 0
 	f.src = netip.Addr{}
 	f.dst = netip.Addr{}
+	f.recvLink = nil
 	f.pooledSlice = nil
 	f.psDataOffset = 0
 	// Return frame to pool.
